@@ -38,7 +38,8 @@ def ChainBelow (parent : Option PageId) : List PageId → Prop
   | P :: Q :: rest => P ≠ [] ∧ Q = P.dropLast ∧ ChainBelow parent (Q :: rest)
 
 /-- the leaf counters of a stack entry cannot make `handle_elision_threshold` fail: a page loaded from the hash table
-carries no counter, a fresh page starts from `0 / 0` -/
+carries no counter, a fresh page (and the first elided page `reconstruct` inserts) starts from `0 / 0`.  (Reconstructed pages
+with real counters are not admitted yet: `notes/Q35.md` (d) 1.) -/
 def CountersOK (sp : StackPage Node) : Prop :=
   (sp.prevChildrenLeaves = none ∧ sp.childrenLeaves = none) ∨
   (sp.prevChildrenLeaves = some 0 ∧ sp.pageLeaves = some 0)
